@@ -108,6 +108,18 @@ void op_DECL(World& w, const Op& op)
       decl = d;                                                                                     \
       sh = stmt_handle(d);                                                                          \
    }
+   // a front end asks "is this a redeclaration?" before it declares: the name is looked up just before and just after
+   bool declared_before = false;
+   for (auto di : sm.decls) declared_before = declared_before || w.decls[di].name == name;
+   try {
+      const bool found = (*sc)[*name].is_valid();
+      if (found != declared_before)
+         w.findings.fail(declared_before ? "C07:lookup-missed:Scope" : "C07:lookup-phantom:Scope", "lookup just before a declaration disagrees with the declarations entered so far");
+      w.findings.count(found ? "lookups_before_declaring_found" : "lookups_before_declaring_missed");
+   }
+   catch (const std::logic_error&) {
+      w.findings.count("lookups_refused_unnamed_member");
+   }
    switch (kind) {
    case 0: {
       // Region/Udt::declare_alias take a Type ("const ipr::Type& t") and forward it as the initializer
@@ -134,6 +146,12 @@ void op_DECL(World& w, const Op& op)
    default: VERIF_DECLARE(Template, make_secondary_template, declare_secondary_template, *static_cast<const Forall*>(type)) break;
    }
 #undef VERIF_DECLARE
+   try {
+      if (!(*sc)[*name].is_valid()) w.findings.fail("C07:lookup-missed:Scope", "a name is not found right after it was declared in the scope");
+   }
+   catch (const std::logic_error&) {
+      w.findings.count("lookups_refused_unnamed_member");
+   }
    Rec& r = w.record_node(w.intern_name(factory), *decl, decl_cats[kind]);
    r.exp("name", N(*name)).exp("type", N(*type)).exp("specifiers", U(0)).exp("home_region", Val::throws()).exp("decl_linkage", Val::throws());
    r.mutable_container = true;   // its decl-set may gain redeclarations
@@ -307,7 +325,12 @@ void decl_fill(World& w, const DeclH h, const Op& op)
    case 6: {   // function declaration data
       if (h.kind != 5) break;
       auto f = static_cast<impl::Fundecl*>(h.impl);
-      if (op.c % 2 && !w.mappings.empty()) {
+      if (op.c % 8 == 7) {
+         // a definition is announced but its mapping is not built yet: every reading of it is refused
+         static_cast<std::variant<impl::Parameter_list*, impl::Mapping*>&>(f->data).emplace<1>(nullptr);
+         if (rec) rec->exp("mapping", Val::absent()).exp("initializer", Val::absent()).exp("parameters", Val::throws());
+      }
+      else if (op.c % 2 && !w.mappings.empty()) {
          auto m = World::pick(w.mappings, op.d);
          static_cast<std::variant<impl::Parameter_list*, impl::Mapping*>&>(f->data) = m;
          if (rec) rec->exp("mapping", N(*m)).exp("initializer", N(*m)).exp("parameters", N(m->inputs));
@@ -1331,6 +1354,24 @@ void op_JUNK(World& w, const Op& op)
 void op_LONGSTR(World& w, const Op& op)
 {
    // long words: they roll the 1 MiB string pools over, and the largest take the oversize path
+   if (op.a % 16 == 15 && w.counters["small_word_floods"] == 0) {
+      // once per history: 70 000 distinct 8-byte words, one string header each, so a 1 MiB pool is filled to its very
+      // last header and the next one is started
+      w.counters["small_word_floods"] = 1;
+      char8_t buf[9] = u8"w0000000";
+      const String* first = nullptr;
+      for (unsigned i = 0; i < 70000; ++i) {
+         unsigned v = i * 2654435761u + op.b;
+         for (int k = 1; k < 8; ++k, v /= 36) buf[k] = char8_t(v % 36 < 10 ? u8'0' + v % 36 : u8'a' + (v % 36 - 10));
+         buf[1] = char8_t(u8'a' + i % 26); buf[2] = char8_t(u8'a' + i / 26 % 26); buf[3] = char8_t(u8'a' + i / 676 % 26); buf[4] = char8_t(u8'a' + i / 17576 % 26);
+         auto& s = w.L().get_string(util::word_view(buf, 8));
+         if (!first) first = &s;
+      }
+      w.counters["long_string_bytes"] += 70000 * 16;
+      w.findings.count("small_word_floods");
+      w.note("70000 distinct 8-byte words");
+      return;
+   }
    static const std::size_t base[] = {300, 5000, 70000, 400000, (std::size_t(1) << 20) + 17, 1500, 65535, 20000};
    const std::size_t n = base[op.a % 8] + op.b;
    if (w.counters["long_string_bytes"] + long(n) > (12 << 20)) return;
